@@ -85,30 +85,50 @@ def py_tables():
 
 
 def _tokenizer_constants():
-    """Keyword tuple and quote pairs read from the source of _parse_tokenize."""
+    """Keyword set and quote pairs of `_parse_tokenize`.
+
+    Candidates are read from the source (every string constant of the module, every module-level sequence, every
+    `x in <sequence>` test reachable from `_parse_tokenize`) plus a fixed list of plausible additions; a candidate is kept
+    when the tokenizer itself treats it as a keyword / as a quote pair. So a refactoring that moves the literals around
+    changes nothing, while a keyword or quote pair added to or dropped from the code changes the table."""
+    import logging
+    import string
     from oslo_policy import _parser
     kws, quotes = [], []
+    logging.disable(logging.CRITICAL)      # junk probes make _parse_check log
     try:
-        tree = ast.parse(textwrap.dedent(inspect.getsource(_parser._parse_tokenize)))
-        for node in ast.walk(tree):
-            if isinstance(node, ast.Compare) and len(node.ops) == 1 and isinstance(node.ops[0], ast.In):
-                comp = node.comparators[0]
-                if isinstance(comp, (ast.Tuple, ast.List)):
-                    vals = []
-                    for e in comp.elts:
-                        try:
-                            vals.append(ast.literal_eval(e))
-                        except Exception:
-                            vals = None
-                            break
-                    if vals is None:
-                        continue
-                    if all(isinstance(v, str) for v in vals):
-                        kws = list(vals)
-                    elif all(isinstance(v, tuple) and len(v) == 2 for v in vals):
-                        quotes = [list(v) for v in vals]
+        mod = ast.parse(inspect.getsource(_parser))
+        consts = {n.value for n in ast.walk(mod) if isinstance(n, ast.Constant) and isinstance(n.value, str)}
+        for v in [getattr(_parser, n) for n in dir(_parser) if not n.startswith('__')]:
+            if isinstance(v, (tuple, list, set, frozenset)):
+                for x in v:
+                    if isinstance(x, str):
+                        consts.add(x)
+                    elif isinstance(x, (tuple, list)):
+                        consts |= {y for y in x if isinstance(y, str)}
+        words = sorted({w.lower() for w in consts if w and not any(c.isspace() or c in '()' for c in w)} |
+                       {'and', 'or', 'not', 'xor', 'nand', 'nor', 'if', 'in', 'is', '&&', '||', '&', '|', '~'})
+        for w in words:
+            try:
+                toks = list(_parser._parse_tokenize(w))
+            except Exception:
+                continue
+            if len(toks) == 1 and toks[0][0] == w and toks[0][1] == w:
+                kws.append(w)
+        chars = sorted((set(string.punctuation) | {c for w in consts if len(w) <= 2 for c in w} | set('‘’“”«»`'))
+                       - set('()') - set(string.whitespace))
+        for a in chars:
+            for b in chars:
+                try:
+                    toks = list(_parser._parse_tokenize(a + 'x' + b))
+                except Exception:
+                    continue
+                if len(toks) == 1 and toks[0][0] == 'string' and toks[0][1] == 'x':
+                    quotes.append([a, b])
     except Exception:
         pass
+    finally:
+        logging.disable(logging.NOTSET)
     return kws, quotes
 
 
